@@ -28,11 +28,11 @@ pub const CHECKS: &[CheckDef] = &[
     CheckDef { id: "C10", level: "exploration", rules: &["C10.", "CRASH."], quick_runs: 6000, thorough_runs: 200_000, nontrivial_rule: ">=2 operations on one name overlapped and at least one of them was a create or a delete" },
     CheckDef { id: "C11", level: "exploration", rules: &["C11.", "C01.conservation", "C01.lost", "C01.redelivery", "C14.retry", "CRASH."], quick_runs: 6000, thorough_runs: 200_000, nontrivial_rule: ">=1 DeleteSubscription or DeleteTopic returned OK and a later audit listed a topic's subscriptions" },
     CheckDef { id: "C12", level: "exploration", rules: &["C12.", "CRASH."], quick_runs: 5000, thorough_runs: 150_000, nontrivial_rule: "a DeleteSubscription returned OK while >=1 stream or blocking Pull was waiting on the subscription" },
-    CheckDef { id: "C13", level: "exploration", rules: &["C13.", "CRASH."], quick_runs: 4000, thorough_runs: 100_000, nontrivial_rule: ">=1 walk of >=2 pages over a listing that had deletions before it, or a forged decodable token" },
-    CheckDef { id: "C14", level: "exploration", rules: &["C14.", "C09.fields", "CRASH."], quick_runs: 5000, thorough_runs: 150_000, nontrivial_rule: ">=1 POST was answered with a non-accepting behaviour and the same message was POSTed again" },
+    CheckDef { id: "C13", level: "exploration", rules: &["C13.", "C11.consistent", "C10.residue", "CRASH."], quick_runs: 4000, thorough_runs: 100_000, nontrivial_rule: ">=1 walk of >=2 pages over a listing that had deletions before it, or a forged decodable token" },
+    CheckDef { id: "C14", level: "exploration", rules: &["C14.", "C09.fields", "C03.double", "CRASH."], quick_runs: 5000, thorough_runs: 150_000, nontrivial_rule: ">=1 POST was answered with a non-accepting behaviour and the same message was POSTed again" },
     CheckDef { id: "C15", level: "exploration", rules: &["C15.", "C06.quiescent", "CRASH."], quick_runs: 5000, thorough_runs: 150_000, nontrivial_rule: ">=1 Pull whose max_messages was smaller than the number of available messages, or a parked Pull that was woken" },
     CheckDef { id: "C16", level: "fault_enumeration", rules: &["C16.", "C01.lost", "C01.redelivery", "C06.quiescent", "C07.", "CRASH."], quick_runs: 5000, thorough_runs: 150_000, nontrivial_rule: "the target request was actually dropped at its k-th real suspension (outcome Abandoned); distinct = distinct (request kind, k, mailbox state, schedule fingerprint)" },
-    CheckDef { id: "C17", level: "exploration", rules: &["C17.", "C01.", "C02.", "C03.", "C07.", "CRASH."], quick_runs: 5000, thorough_runs: 150_000, nontrivial_rule: ">=3 malformed requests were rejected with INVALID_ARGUMENT while valid traffic ran alongside" },
+    CheckDef { id: "C17", level: "exploration", rules: &["C17.", "C01.", "C02.", "C03.", "C07.", "C14.retry", "C14.nonpush", "CRASH."], quick_runs: 5000, thorough_runs: 150_000, nontrivial_rule: ">=3 malformed requests were rejected with INVALID_ARGUMENT while valid traffic ran alongside" },
 ];
 
 pub fn find(id: &str) -> Option<&'static CheckDef> {
@@ -175,7 +175,14 @@ pub fn generate(id: &str, run_seed: u64, _thorough: bool) -> Plan {
                 f_names(run_seed, 1 + pick % 3, false)
             }
         }
-        "C13" => f_listing(run_seed, mix2(run_seed, 0xB16) % 1000 < if _thorough { 20 } else { 12 }),
+        "C13" => {
+            if pick < 88 {
+                f_listing(run_seed, mix2(run_seed, 0xB16) % 1000 < if _thorough { 20 } else { 12 })
+            } else {
+                // listings of names with racing / failed / abandoned creates and deletes behind them
+                f_names(run_seed, 1 + pick % 3, true)
+            }
+        }
         "C14" => f_push(run_seed, pick < 35),
         "C16" => {
             if pick < 85 {
@@ -192,7 +199,7 @@ pub fn generate(id: &str, run_seed: u64, _thorough: bool) -> Plan {
             } else if pick < 70 {
                 f_lease(run_seed, &LeaseOpts { modacks: false, limits: true })
             } else {
-                f_consumers(run_seed, false)
+                f_consumers(run_seed, pick % 2 == 0)
             }
         }
         _ => f_general(run_seed, &full),
